@@ -1,5 +1,5 @@
 ------------------------------ MODULE C11_Judge ------------------------------
-EXTENDS C11_Rewrites, Json, IOUtils
+EXTENDS C11_Impl, Json, IOUtils
 VARIABLES blk, off
 Recs == ndJsonDeserialize(IOEnv.TRACE_FILE)
 BS == 16
@@ -14,5 +14,9 @@ Report ==
       LET rec == Recs[Idx]
           vs == [i \in 1..Len(Names) |-> [rw |-> Names[i], cl |-> JudgeRewrite(Names[i], rec.e, rec.out[i])]]
           bad == SelectSeq(vs, LAMBDA v : v.cl # << >>)
-      IN bad = << >> \/ PrintT(ToJson([id |-> rec.id, bad |-> bad]))
+          \* drift: what flatten() really returned against the transcription's prediction
+          fl == rec.out[1]
+          drift == fl.r = "ok" /\ fl.e # FlattenImpl(rec.e)
+      IN /\ (bad = << >> \/ PrintT(ToJson([id |-> rec.id, bad |-> bad])))
+         /\ (~drift \/ PrintT(ToJson([id |-> rec.id, drift |-> "flatten"])))
 =============================================================================
